@@ -94,6 +94,23 @@ def _cases(draw, tier):
                 vs.append("0")
         p = draw(st.permutations(list(range(len(ks)))))
         pool.append({"keys": [ks[i] for i in p], "vals": [vs[i] for i in p]})
+    symmix = None
+    if not big and d <= 3 and draw(st.integers(0, 4)) == 0:
+        # an operand mixing a sympy symbol with plain numbers (results of operators on it may be purely numeric again)
+        src = draw(st.sampled_from(pool))
+        if src["keys"]:
+            pool.append({"keys": list(src["keys"][:2]), "vals": list(src["vals"][:2]), "sym": True})
+            symmix = [len(pool) - 1]
+            # a single-blade operand on the numeric blade of that operand: operators with it can give purely numeric results
+            pool.append({"keys": [src["keys"][:2][-1]], "vals": ["2"]})
+            symmix.append(len(pool) - 1)
+            for k in range(n):
+                if k not in src["keys"][:2]:
+                    pool.append({"keys": [src["keys"][0], k][::draw(st.sampled_from([1, -1]))], "vals": ["0", "3"], "zero_first": True})
+                    if pool[-1]["keys"][0] != src["keys"][0]:
+                        pool[-1]["vals"] = ["3", "0"]
+                    symmix.append(len(pool) - 1)
+                    break
     idx = st.integers(0, len(pool) - 1)
     # a small operator alphabet per history, so that the same operator meets several storage orders of one blade set
     bins = draw(st.lists(st.sampled_from(BIN if not big else [b for b in BIN if b not in ("div", "sw", "proj")]), min_size=1, max_size=3, unique=True))
@@ -101,8 +118,8 @@ def _cases(draw, tier):
     steps = []
     nsteps = draw(st.integers(2, 40 if tier == "thorough" else 30))
     for _ in range(nsteps):
-        k = draw(st.sampled_from(["bin", "bin", "bin", "bin", "un", "un", "num", "list", "reg", "reg", "call", "call", "call", "symcall", "raise", "mut"]
-                                 if not big else ["bin", "bin", "bin", "bin", "un", "num", "list", "raise"]))
+        k = draw(st.sampled_from(["bin", "bin", "bin", "bin", "un", "un", "num", "list", "reg", "reg", "call", "call", "call", "symcall", "raise", "mut", "fb", "fb", "blade", "sinv"]
+                                 if not big else ["bin", "bin", "bin", "bin", "un", "num", "list", "raise", "blade", "sinv", "fb"]))
         if k == "bin":
             steps.append({"k": k, "op": draw(st.sampled_from(bins)), "i": draw(idx), "j": draw(idx)})
         elif k == "un":
@@ -117,6 +134,13 @@ def _cases(draw, tier):
                 again = dict(steps[-1])
                 again["ntype"] = draw(st.sampled_from(["Fraction", "int", "float", "sympy", "np.float64"]))
                 steps.append(again)
+        elif k == "fb":
+            # a result of an earlier step fed back in as an operand
+            steps.append({"k": k, "op": draw(st.sampled_from(bins)), "r": draw(st.integers(0, 40)), "j": draw(idx), "side": draw(st.sampled_from(["l", "r"]))})
+        elif k == "blade":
+            steps.append({"k": k, "b": draw(st.integers(0, min(n, 64) - 1)), "form": draw(st.sampled_from(["getitem", "attr"]))})
+        elif k == "sinv":
+            steps.append({"k": k, "v": draw(st.sampled_from(["4", "-2", "1/3"])), "form": draw(st.sampled_from(["inv", "div"]))})
         elif k == "mut":
             steps.append({"k": k, "op": draw(st.sampled_from(["inv", "normsq", "reverse", "sq", "sw", "gp", "pow-1", "neg"])), "i": draw(idx), "j": draw(idx),
                           "new": [draw(st.integers(-4, 4)) for _ in range(6)], "how": draw(st.sampled_from(["setitem", "backing"]))})
@@ -133,6 +157,11 @@ def _cases(draw, tier):
         else:
             steps.append({"k": k, "what": draw(st.sampled_from(["inv0", "otheralg", "badkind", "badgrade"] if not big else ["otheralg", "badkind", "badgrade"])), "i": draw(idx),
                           "op": draw(st.sampled_from(["gp", "add", "op"]))})
+    if symmix and len(symmix) == 3:
+        # by construction: symbol-mixed operand (op) single blade, the result fed back into an operator with a zero-holding operand
+        at = draw(st.integers(0, len(steps)))
+        steps[at:at] = [{"k": "bin", "op": draw(st.sampled_from(["ip", "sp", "lc", "rc", "gp", "op", "cp"])), "i": symmix[0], "j": symmix[1]},
+                        {"k": "fb", "op": draw(st.sampled_from(["gp", "add", "sub", "op", "ip"])), "r": -1, "j": symmix[2], "side": draw(st.sampled_from(["l", "r"]))}]
     case = {"cfg": cfg, "wrapper": draw(st.sampled_from([False, True, True])), "cse": draw(st.booleans()), "pool": pool, "steps": steps,
             "threads": None}
     if draw(st.integers(0, 3)) == 0:
@@ -177,8 +206,10 @@ class Env:
     def __init__(self, case):
         self.case = case
         self.alg = kd.build_algebra(case["cfg"], cse=case["cse"], wrapper=case["wrapper"])
-        self.pool = [kd.mk(self.alg, o["keys"], [frac(v) for v in o["vals"]]) for o in case["pool"]]
+        self.pool = [kd.mk(self.alg, o["keys"], _pool_values(o)) for o in case["pool"]]
         self.slots = []        # [(reg step, registered object, nargs)]
+        self.results = []      # multivectors returned by earlier steps (operands of "fb" steps)
+        self.last_fb = None
 
     def register(self, step, callee_slot="choose"):
         """Register program step['p'] under step['name'].  Nested programs call an earlier registered 2-argument function:
@@ -211,10 +242,20 @@ class Env:
         return out[::-1]
 
 
+def _pool_values(o):
+    vals = [frac(v) for v in o["vals"]]
+    if o.get("sym") and vals:
+        import sympy
+        vals[0] = sympy.Symbol("t")
+    return vals
+
+
 def _elem(x):
+    """The result as stored: ordered dict key -> coefficient, explicit zeros included (the shared and the fresh algebra run the
+    same computation on identical operands, so even the storage has to agree)."""
     if isinstance(x, (list, tuple)):
         return [_elem(v) for v in x]
-    return {k: v for k, v in kd.to_dict(x, op="history").items() if hasattr(v, "shape") and getattr(v, "shape", ()) != () or v != 0}
+    return dict(kd.to_dict(x, op="history"))
 
 
 def _number(step):
@@ -278,6 +319,7 @@ def _mut_step(env, step, fresh):
 
 
 def run_step(env: Env, step, made, fixed_slot=None, fresh=False):
+    """`fresh`: False on the shared algebra; the shared Env when this is the oracle run on a fresh algebra."""
     """Execute one step.  Returns ('ok', element(s)) | ('exc', class name) | ('skip', None).  Appends every multivector
     the step returned to `made`."""
     k = step["k"]
@@ -313,8 +355,25 @@ def run_step(env: Env, step, made, fixed_slot=None, fresh=False):
             vals = {str(s): v for s, v in zip(xs.values(), x.values())}
             kwargs = {str(s): vals[str(s)] for s in sym.free_symbols}
             r = sym(**kwargs) if kwargs else sym
+        elif k == "fb":
+            if fresh is False:
+                if not env.results:
+                    return "skip", None
+                env.last_fb = step["r"] % len(env.results)
+                o = env.results[env.last_fb]
+            else:
+                src = fresh.results[fresh.last_fb]
+                o = kd.mk_raw(env.alg, tuple(src.keys()), copy.deepcopy(src.values()) if not isinstance(src.values(), list) else copy.deepcopy(list(src.values())))
+            y = P[step["j"]]
+            r = getattr(o, step["op"])(y) if step["side"] == "l" else getattr(y, step["op"])(o)
+        elif k == "blade":
+            name = env.alg.bin2canon[step["b"] % len(env.alg)]
+            r = env.alg.blades[name] if step["form"] == "getitem" else getattr(env.alg.blades, name)
+        elif k == "sinv":
+            sc = kd.mk(env.alg, [0], [frac(step["v"])])
+            r = sc.inv() if step["form"] == "inv" else kd.mk(env.alg, [0], [F(6)]) / sc
         elif k == "mut":
-            r = _mut_step(env, step, fresh)
+            r = _mut_step(env, step, fresh is not False)
             if r is None:
                 return "skip", None
         elif k == "raise":
@@ -356,10 +415,10 @@ def fresh_result(case, step, shared: Env):
         for sl in chain:
             st_, _, _, dep = shared.slots[sl]
             pos[sl] = env.register(st_, callee_slot=pos.get(dep) if dep is not None else None)
-        return run_step(env, step, made, fixed_slot=pos[target], fresh=True)
+        return run_step(env, step, made, fixed_slot=pos[target], fresh=shared)
     if step["k"] == "reg":
         return "ok", "registered"
-    return run_step(env, step, made, fresh=True)
+    return run_step(env, step, made, fresh=shared)
 
 
 def _snapshot(m):
@@ -451,6 +510,8 @@ def evaluate(case):
                 raise_then_ok = True
             snaps.extend(_snapshot(m) for m in made)
             _check_snapshots(snaps, step)
+            if got[0] == "ok" and step["k"] not in ("mut",):
+                env.results.extend(made)
     else:
         # registrations run up front (sequentially), the remaining steps are split over threads and interleaved
         regs = []
@@ -462,7 +523,7 @@ def evaluate(case):
                     regs.append(step)
         work = [[] for _ in range(threads["n"])]
         for n, step in enumerate(steps):
-            if step["k"] != "reg":
+            if step["k"] not in ("reg", "fb"):
                 work[threads["assign"][n]].append((n, step))
         results = {}
         mades = []
@@ -497,6 +558,11 @@ def evaluate(case):
         labels.append("threads")
     if threads and threads.get("twin"):
         labels.append("threads:twin")
+    for kind_ in ("fb", "blade", "sinv", "mut"):
+        if any(s_["k"] == kind_ for s_ in steps):
+            labels.append(f"step:{kind_}")
+    if any(o.get("sym") for o in case["pool"]):
+        labels.append("pool:symbol-mixed")
     if reorder:
         labels.append("reorder")
     if samename:
@@ -513,8 +579,8 @@ def _identical(g, e):
     """The shared and the fresh algebra run the same deterministic computation on the same operands, so the two results are
     compared for exact equality (==; arrays element-wise with NaN == NaN), not to rounding: Fraction(1, 6) != 1/6 as float."""
     import numpy as np
-    if set(g) != set(e):
-        return False, f"stored non-zero blades {sorted(g)} vs {sorted(e)}"
+    if list(g) != list(e):
+        return False, f"stored blades (in order) {list(g)} vs {list(e)}"
     for k in g:
         a, b = g[k], e[k]
         if hasattr(a, "shape") or hasattr(b, "shape"):
@@ -522,6 +588,9 @@ def _identical(g, e):
         else:
             try:
                 same = bool(a == b) or (a != a and b != b)
+                if not same and (hasattr(a, "free_symbols") or hasattr(b, "free_symbols")):
+                    import sympy
+                    same = sympy.simplify(sympy.sympify(a) - sympy.sympify(b)) == 0
             except Exception:
                 same = False
         if not same:
